@@ -57,6 +57,13 @@ def _setup():
             h = rnp.asarray(h, dtype=object)
             return rnp.frompyfunc(lambda x: Sym(COR2(lift(x), lift(self.shape))), 1, 1)(h)
 
+    class UFVarFactor(UFOpt):
+        """as UFOpt, with a variance that follows the shape parameter (like the truncated-power-law models: var = var_raw * var_factor)"""
+
+        def var_factor(self):
+            return 0.5 + self.shape
+
+    UFOpt.with_var_factor = UFVarFactor
     return gs, fit, UFOpt
 
 
@@ -74,12 +81,16 @@ SELECTIONS = {
     "no_var_nugget": {"var": False, "nugget": False},
     "fix_var_no_nugget": {"var": "FV", "nugget": False},
     "fix_all_but_len": {"var": "FV", "nugget": "FN", "shape": "FS"},
+    "no_var_len": {"var": False, "len_scale": False},
+    "fix_var_no_len": {"var": "FV", "len_scale": False},
 }
 ORDER = ["var", "len_scale", "nugget", "shape"]
 
 
-def job_fit(selname, sillmode, dim, anismode, guess, tier, latlon=False, weights=None, nevals=2):
+def job_fit(selname, sillmode, dim, anismode, guess, tier, latlon=False, weights=None, nevals=2, var_factor=False):
     gs, fit, UFOpt = _setup()
+    if var_factor:
+        UFOpt = UFOpt.with_var_factor
     T = core.tier_timeout(tier)
     v0, l0, n0, s0, a0 = sym.reals("var0 len0 nug0 shape0 anis0")
     FV, FL, FN, FS, SILL, AN = sym.reals("fix_var fix_len fix_nug fix_shape sill anis_given")
@@ -89,8 +100,8 @@ def job_fit(selname, sillmode, dim, anismode, guess, tier, latlon=False, weights
     G = {k: real(f"guess_{k}") for k in ("var", "len_scale", "nugget", "shape", "anis")}
     fixed = {"FV": FV, "FL": FL, "FN": FN, "FS": FS}
     wv = {str(s.e): s for s in [v0, l0, n0, s0, a0, FV, FL, FN, FS, SILL, AN] + X + Y + list(G.values())}
-    tag = f"C10/{selname}/sill={sillmode}/d{dim}/anis={anismode}/guess={guess}" + ("/latlon" if latlon else "") + (f"/weights={weights}" if weights else "")
-    rb = ("fit", lambda v: {"sel": selname, "sill": sillmode, "dim": dim, "anis": anismode, "guess": guess, "latlon": latlon, "weights": weights, "values": v})
+    tag = f"C10/{selname}/sill={sillmode}/d{dim}/anis={anismode}/guess={guess}" + ("/latlon" if latlon else "") + (f"/weights={weights}" if weights else "") + ("/var_factor" if var_factor else "")
+    rb = ("fit", lambda v: {"sel": selname, "sill": sillmode, "dim": dim, "anis": anismode, "guess": guess, "latlon": latlon, "weights": weights, "var_factor": var_factor, "values": v})
     out = []
     sel_raw = SELECTIONS[selname]
 
@@ -387,6 +398,10 @@ def jobs(tier, seed):
     js.append(Job("fit-weights-inv", job_fit, "all", "none", 1, "iso", "default", tier, False, "inv"))
     js.append(Job("fit-weights-array", job_fit, "no_nugget", "none", 1, "iso", "default", tier, False, "array"))
     js.append(Job("fit-latlon", job_fit, "all", "none", 2, "iso", "default", tier, True))
+    # a model whose variance follows another parameter (truncated-power-law like): the closure has to restore / set the variance last
+    for sel in ("all", "no_var", "fix_var", "no_var_len", "fix_var_no_len", "no_len_shape", "only_len"):
+        for sm in ("none", "value"):
+            js.append(Job(f"fit-varfactor-{sel}-{sm}", job_fit, sel, sm, 1, "iso", "default", tier, False, None, 2, True))
     if big:
         for sel in SELECTIONS:
             js.append(Job(f"fit-{sel}-value-d2-fit", job_fit, sel, "value", 2, "fit", "default", tier))
@@ -428,7 +443,7 @@ def _check_state(tag, m, names, before, before_anis, fp, sel_raw, fixedv, sm, si
         if s_ is False and not np.isclose(after[k], before[k], rtol=1e-12):
             bad.append(f"{tag}: deselected {k}={before[k]} became {after[k]}")
     for k, n in names.items():
-        if fp[n] != after[k]:
+        if not np.isclose(fp[n], after[k], rtol=1e-14, atol=0.0):  # (one rounding of var_raw * var_factor is not a difference)
             bad.append(f"{tag}: returned {n}={fp[n]} but model.{n}={after[k]}")
     if constrain and abs(after["var"] + after["nugget"] - sill_t) > 4e-16 * abs(sill_t):
         bad.append(f"{tag}: sill {sill_t!r} != var + nugget = {after['var'] + after['nugget']!r} (var={after['var']!r}, nugget={after['nugget']!r})")
@@ -458,17 +473,23 @@ def replay_fit(inputs):
     sel_raw, sm, dim, am, guess = SELECTIONS[inputs["sel"]], inputs["sill"], int(inputs["dim"]), inputs["anis"], inputs["guess"]
     latlon, weights = bool(inputs.get("latlon")), inputs.get("weights")
     fixedv = {"FV": abs(_val(v, "fix_var", 0.8)) or 0.8, "FL": abs(_val(v, "fix_len", 2.5)) or 2.5, "FN": abs(_val(v, "fix_nug", 0.2)), "FS": min(max(abs(_val(v, "fix_shape", 1.2)), 0.3), 2.0)}
-    names = {"var": "var", "len_scale": "len_scale", "nugget": "nugget", "shape": "alpha"}
+    vfac = bool(inputs.get("var_factor"))
+    # (a model whose variance follows a shape parameter: the truncated-power-law Gaussian model, shape := hurst in (0.1, 1))
+    Model = gs.TPLGaussian if vfac else gs.Stable
+    sname = "hurst" if vfac else "alpha"
+    clip = (lambda x: min(max(abs(x), 0.15), 0.9)) if vfac else (lambda x: min(max(abs(x), 0.3), 2.0))
+    fixedv["FS"] = clip(_val(v, "fix_shape", 0.6 if vfac else 1.2))
+    names = {"var": "var", "len_scale": "len_scale", "nugget": "nugget", "shape": sname}
     bad = []
     real_cf = fitmod.curve_fit
 
     def make(extra_sel=None):
-        kw = dict(dim=dim, var=abs(_val(v, "var0", 1.0)) or 1.0, len_scale=abs(_val(v, "len0", 1.5)) or 1.5, nugget=abs(_val(v, "nug0", 0.1)), alpha=min(max(abs(_val(v, "shape0", 1.5)), 0.3), 2.0))
+        kw = dict(dim=dim, var=abs(_val(v, "var0", 1.0)) or 1.0, len_scale=abs(_val(v, "len0", 1.5)) or 1.5, nugget=abs(_val(v, "nug0", 0.1)), **{sname: clip(_val(v, "shape0", 0.5 if vfac else 1.5))})
         if dim > 1 and not latlon:
             kw["anis"] = abs(_val(v, "anis0", 0.6)) or 0.6
         if latlon:
             kw.update(latlon=True, geo_scale=2.0)
-        m = gs.Stable(**kw)
+        m = Model(**kw)
         sel = {names[k]: (fixedv[s] if isinstance(s, str) else s) for k, s in sel_raw.items()}
         sel.update(extra_sel or {})
         kwargs = dict(sel)
@@ -478,7 +499,7 @@ def replay_fit(inputs):
             kwargs["sill"] = sill_t
         elif sm == "current":
             kwargs["sill"] = False
-            mm = gs.Stable(**kw)  # fixed values are written before the current sill is read
+            mm = Model(**kw)  # fixed values are written before the current sill is read
             vt = None
             for k_, s_ in sel.items():
                 if not isinstance(s_, bool):
@@ -502,11 +523,11 @@ def replay_fit(inputs):
         if guess == "current":
             kwargs["init_guess"] = "current"
         elif guess == "dict":
-            kwargs["init_guess"] = {"default": "current", "len_scale": 1.9, "alpha": 1.1, "var": 0.9}
+            kwargs["init_guess"] = {"default": "current", "len_scale": 1.9, sname: (0.45 if vfac else 1.1), "var": 0.9}
         return m, kwargs, sill_t, given_anis, dict(sel_raw, **{k: v_ for k, v_ in (extra_sel or {}).items()})
 
     def data(tv, tl, tn, ts):
-        truth = gs.Stable(dim=dim, var=tv, len_scale=tl, nugget=tn, alpha=ts, **({"anis": 0.5} if dim > 1 and not latlon else {}), **({"latlon": True, "geo_scale": 2.0} if latlon else {}))
+        truth = Model(dim=dim, var=tv, len_scale=tl, nugget=tn, **{sname: (ts / 2.5 if vfac else ts)}, **({"anis": 0.5} if dim > 1 and not latlon else {}), **({"latlon": True, "geo_scale": 2.0} if latlon else {}))
         x = np.linspace(0.2, 6.0 if not latlon else 2.5, 12)
         ndir = dim if (dim > 1 and am != "iso") else 1
         if ndir > 1:
@@ -563,7 +584,7 @@ def replay_fit(inputs):
     # ---- (B) real optimiser
     variants = [None]
     if sm in ("value", "current") and "len_scale" not in sel_raw:
-        variants.append({"len_scale": False, "alpha": False})
+        variants.append({"len_scale": False, sname: False})
     for extra in variants:
         sr_ = dict(sel_raw)
         if extra:
@@ -585,10 +606,12 @@ def replay_fit(inputs):
                 if "infeasible" in str(e):
                     bad.append(f"scipy optimiser: {e}")
                 continue  # documented rejections / an optimum on an open bound (outside the claim)
+            except RuntimeError:
+                continue  # the optimiser did not converge on this data set (outside the claim)
             sr = dict(sel_raw)
             if extra:
                 sr.update({"len_scale": False, "shape": False})
-            _check_state(f"scipy optimiser{' (len_scale, alpha held)' if extra else ''}", m, names, before, before_anis, fp, sr, fixedv, sm, sill_t, dim, am, latlon, given_anis, bad)
+            _check_state(f"scipy optimiser{' (len_scale, shape held)' if extra else ''}", m, names, before, before_anis, fp, sr, fixedv, sm, sill_t, dim, am, latlon, given_anis, bad)
     return (not bad), f"sel={inputs['sel']} sill={sm} dim={dim} anis={am} guess={guess}: {bad[:6]}"
 
 
